@@ -858,6 +858,12 @@ def run(ck: Check) -> None:
     campaign_merge(ck, 800 if quick else 8000)
     campaign_pyproject(ck, 120 if quick else 1200)
     c18_kv.campaign_kv_model(ck, 600 if quick else 6000)
+    _t0 = time.time()
+
+    def _t(label: str) -> None:
+        if os.environ.get("VERIF_DEBUG"):
+            print(f"[c18] {label}: {time.time() - _t0:.1f}s since the model campaigns")
+
     rn = Runner()
     try:
         # independent campaigns run side by side (c18_pool: own result lists merged in program order, own random
@@ -877,8 +883,10 @@ def run(ck: Check) -> None:
         run_parts(ck, [("part:three-ways", first), ("part:alias", lambda p: campaign_alias_spellings(p, rn)),
                        ("part:split", lambda p: campaign_split(p, rn)), ("part:env", c18_env.campaign_env),
                        ("part:exit", lambda p: campaign_exit(p, rn))])
-        run_parts(ck, [("part:repeated", repeated), ("part:both", lambda p: campaign_both_present(p, rn, box.get("cache", {})))])
-        known_findings(ck, rn)
+        _t("group1")
+        run_parts(ck, [("part:repeated", repeated), ("part:both", lambda p: campaign_both_present(p, rn, box.get("cache", {}))),
+                       ("part:known", lambda p: known_findings(p, rn))])   # the witnesses of the known findings, re-run
+        _t("group2")
         if os.environ.get("VERIF_DEBUG"):
             from .c18_pool import COUNT, TALLY
             print(f"[c18] child processes: {COUNT[0]} {TALLY}")
